@@ -169,7 +169,7 @@ class Elf(BinFormat):
                     continue
                 if s.sh_addr <= addr < s.sh_addr + s.sh_size:
                     return s, addr - s.sh_addr, s.sh_addr
-        elif self.Phdr:
+        if self.Phdr:
             for s in reversed(self.Phdr):
                 if s.p_type != PT_LOAD:
                     continue
